@@ -238,7 +238,7 @@ def ev(case, rec):
     rec.sample({'case': dict(case, brgs=case['brgs'][:2])})
 
 
-SUBCHECKS = [Sub('grid_geodesic', gen, ev, chunk=1, floor=500, guard=True), Sub('both_hemispheres', gen_both, ev_both, chunk=1, floor=100, guard=True)]
+SUBCHECKS = [Sub('grid_geodesic', gen, ev, chunk=1, floor=500, guard=True, envs=8), Sub('both_hemispheres', gen_both, ev_both, chunk=1, floor=100, guard=True, envs=4)]
 
 
 def bounds(tier, seed):
